@@ -104,7 +104,7 @@ def struct_body(draw, env, depth, kind="struct", keywords=False, prefix=""):
         decl = nm
         form = draw(st.integers(0, 11))
         if form == 0:
-            decl = "*" + nm
+            decl = draw(st.sampled_from(["*", "*", "**"])) + nm
         elif form == 1:
             decl = f"{nm}[{draw(st.integers(0, 4))}]"
         elif form == 2 and env["defines"]:
@@ -229,7 +229,7 @@ def defset(draw, max_items=8, keywords=False, array_typedefs=True):
 
 _TOK = re.compile(
     r"(?P<define>#define[^\n]*\n)"
-    r"|(?P<decl>\**\s*[A-Za-z_0-9]+(?:\[[^\]\n]*\])+)"
+    r"|(?P<bracket>\[[^\]\n]*\])"
     r"|(?P<word>[A-Za-z_0-9]+)"
     r"|(?P<op><<|>>|[{};,=:*()+\-|&~^/%])"
     r"|(?P<ws>\s+)"
